@@ -367,8 +367,15 @@ def build (i : CtorIn) (r : Resolved) : R Body :=
   if dOther && v.kind != Kind.bool then none else
   some (assemble i.cls v m values.shape nrank drank (defaultShape info r.dflt drank item) (r.units == RawUnits.some))
 
+/-- vector.py:28-40 `Vector.__init__` (inherited by Vector3, Pair, Quaternion, Polynomial): a Python number becomes
+    an array of shape (1,) before the default constructor runs -/
+def vectorArg (c : Cls) : RawArg → RawArg
+  | .val a => if (classInfo c).scalarToArr && !a.isArr then .val ⟨true, [1], a.kind, true⟩ else .val a
+  | x => x
+
 /-- qube.py:233-428 without the installation of derivatives.  Returns the new object (no derivatives yet). -/
 def ctorCore (i : CtorIn) : R Body :=
+  let i := { i with arg := vectorArg i.cls i.arg }
   let r := fromArg i
   if r.bad then none else build i (fromExample i r)
 
